@@ -606,7 +606,8 @@ func (g *gen) qualifyImport(name, path string) string {
 	// TODO(light): Use parts of import path to disambiguate.
 	newName := disambiguate(name, func(n string) bool {
 		// Don't let an import take the "err" name. That's annoying.
-		return n == "err" || g.nameInFileScope(n)
+		// "init" and "_" cannot name an import at all.
+		return n == "err" || n == "init" || n == "_" || g.nameInFileScope(n)
 	})
 	g.imports[unvendored] = importInfo{
 		name:    newName,
